@@ -3185,9 +3185,19 @@ pub mod verif_stream_hook {
 
     thread_local! {
         static BOOK: RefCell<Vec<BookEvent>> = RefCell::new(Vec::new());
+        static BOOK_ON: core::cell::Cell<bool> = core::cell::Cell::new(false);
+    }
+
+    /// switch the bookkeeping log of the calling thread on or off (off by default: a thread that never
+    /// drains it must not accumulate events)
+    pub fn set_book(on: bool) {
+        BOOK_ON.with(|b| b.set(on));
     }
 
     pub fn book<Alloc: BrotliAlloc>(s: &BrotliEncoderStateStruct<Alloc>, point: u8, a: u32, b: u32) {
+        if !BOOK_ON.with(|b| b.get()) {
+            return;
+        }
         let ev = BookEvent {
             point,
             a,
